@@ -350,56 +350,71 @@ def conservation_validator(prog: Program, rep, RID: str):
     else:
         raise AnalysisError("check_flow_conservation: in/out sums not found")
     a, b = sums["in_edges"][0], sums["out_edges"][0]
-    # 3. decisive comparison.  Reviewed form: integral sums are compared exactly, non-integral floats with a tolerance <= 1e-6
-    #    (`!=` alone rejects 0.3 = 0.1 + 0.2; a relative tolerance alone accepts 2000000001 = 2000000000)
-    def is_dec(s_):
-        return isinstance(s_, ast.If) and isinstance(s_.test, ast.Compare) and len(s_.test.ops) == 1 and \
-            {norm(s_.test.left), norm(s_.test.comparators[0])} == {a, b}
-
-    def is_close(s_):
-        return isinstance(s_, ast.If) and isinstance(s_.test, ast.UnaryOp) and isinstance(s_.test.op, ast.Not) and \
-            isinstance(s_.test.operand, ast.Call) and dotted(s_.test.operand.func) in ("math.isclose", "isclose") and len(s_.test.operand.args) == 2 and \
-            {norm(x) for x in s_.test.operand.args} == {a, b}
+    # 3. decisive comparison.  Reviewed form: integral sums are compared exactly; other sums within the rounding error of the two sums, a tolerance
+    #    scaled by math.ulp of the values (`!=` alone rejects 0.3 = 0.1 + 0.2; a fixed relative tolerance accepts 2000000001 = 2000000000 among
+    #    integers and 3000000002.5 = 3000000000.5 among floats)
+    from rules.values import classify_guarded_comparisons, _mentions_ulp
 
     def returns_false(s_):
         rets_ = [n for n in s_.body if isinstance(n, ast.Return)]
         return bool(rets_) and isinstance(rets_[0].value, ast.Constant) and rets_[0].value.value is False
 
-    def tol_ok(s_):
-        kws = s_.test.operand.keywords
-        tols = [k.value.value for k in kws if isinstance(k.value, ast.Constant) and isinstance(k.value.value, (int, float))]
-        return len(tols) == len(kws) and all(0 <= t_ <= 1e-6 for t_ in tols)
-    decs = [s_ for s_ in ast.walk(lp) if is_dec(s_)]
-    closes = [s_ for s_ in ast.walk(lp) if is_close(s_)]
-    guards = [s_ for s_ in lp.body if isinstance(s_, ast.If) and "is_integer" in norm(s_.test) and a in norm(s_.test) and b in norm(s_.test)]
-    if len(guards) == 1 and len(decs) == 1 and len(closes) == 1 and decs[0] in guards[0].body and closes[0] in guards[0].orelse:
-        d, cl = decs[0], closes[0]
-        if isinstance(d.test.ops[0], ast.NotEq) and returns_false(d) and returns_false(cl) and tol_ok(cl):
-            rep.ok(RID, key + ":decision", f"integral sums: `{norm(d.test)}` -> False; other sums: `{norm(cl.test)}` -> False", f.loc(guards[0]))
+    def holder_if(node):
+        """the `if` statement whose test contains node"""
+        for st_ in ast.walk(lp):
+            if isinstance(st_, ast.If) and any(x is node for x in ast.walk(st_.test)):
+                return st_
+        return None
+    guarded, unguarded = classify_guarded_comparisons(lp)
+    guarded = [g for g in guarded if isinstance(g[0], ast.If) and a in norm(g[0].test) and b in norm(g[0].test)]
+    plain = [c_ for c_ in ast.walk(lp) if isinstance(c_, ast.Compare) and len(c_.ops) == 1 and {norm(c_.left), norm(c_.comparators[0])} == {a, b} and
+             not any(any(x is c_ for x in ast.walk(g[0])) for g in guarded)]
+    if len(guarded) == 1 and not plain and not unguarded:
+        gnode, exact, kind, onode = guarded[0]
+        eh = holder_if(exact) if exact is not None else None
+        oh = holder_if(onode) if onode is not None else None
+        exact_ok = exact is not None and {norm(exact.left), norm(exact.comparators[0])} == {a, b} and isinstance(exact.ops[0], ast.NotEq) and eh is not None and returns_false(eh)
+        if not exact_ok:
+            rep.violation(RID, key + ":decision", f"integral sums are not rejected on every difference (`{norm(exact) if exact is not None else norm(gnode.test)}`)", f.loc(gnode))
+        elif kind == "ulp":
+            # polarity: `if not abs(a - b) <= E: return False` or `if abs(a - b) > E: return False`
+            t_ = oh.test if oh is not None else None
+            neg = isinstance(t_, ast.UnaryOp) and isinstance(t_.op, ast.Not) and isinstance(onode.ops[0], (ast.LtE, ast.Lt))
+            pos = t_ is onode and isinstance(onode.ops[0], (ast.Gt, ast.GtE))
+            if oh is not None and returns_false(oh) and (neg or pos) and a in norm(onode) and b in norm(onode):
+                rep.ok(RID, key + ":decision", f"integral sums: `{norm(exact)}` -> False; other sums: beyond the rounding error of the two sums (`{norm(onode)[:70]}`) -> False", f.loc(gnode))
+            else:
+                rep.violation(RID, key + ":decision", f"the non-integral branch `{norm(oh.test) if oh is not None else norm(onode)}` does not answer False on every difference beyond the rounding error", f.loc(onode))
+        elif kind == "isclose":
+            rep.violation(RID, key + ":decision", f"non-integral sums are compared by `{norm(onode)[:70]}`: a fixed relative tolerance accepts float flows that differ by whole units "
+                          "at large magnitudes (s->a 3000000000.5, a->t 3000000002.5 is accepted and the greedy route reports solved with 2 units unexplained); the tolerance "
+                          "has to be the rounding error of the two sums (math.ulp of the values)", f.loc(onode))
+        elif kind == "exact":
+            if isinstance(onode.ops[0], ast.NotEq):
+                rep.violation(RID, key + ":decision", f"non-integral sums are compared exactly as well (`{norm(onode)}`): float flows that conserve flow as decimal numbers "
+                              "(0.3 -> 0.1 + 0.2 = 0.30000000000000004) are rejected as non-conserving although they are inside the documented domain", f.loc(onode))
+            else:
+                rep.violation(RID, key + ":decision", f"`{norm(onode)}` does not answer False on every difference of inflow and outflow", f.loc(onode))
         else:
-            rep.violation(RID, key + ":decision", f"the conservation verdict (`{norm(d.test)}` / `{norm(cl.test)}`) does not answer False on every difference, or uses a tolerance "
-                          "above 1e-6", f.loc(guards[0]))
-    elif len(guards) == 1 and len(decs) == 2 and not closes and decs[0] in guards[0].body and decs[1] in guards[0].orelse:
-        d2 = decs[1]
-        if isinstance(d2.test.ops[0], ast.NotEq):
-            rep.violation(RID, key + ":decision", f"non-integral sums are compared exactly as well (`{norm(d2.test)}`): float flows that conserve flow as decimal numbers "
-                          "(0.3 -> 0.1 + 0.2 = 0.30000000000000004) are rejected as non-conserving although they are inside the documented domain", f.loc(d2))
-        else:
-            rep.violation(RID, key + ":decision", f"`if {norm(d2.test)}: {norm(d2.body[0])[:40]}` does not answer False on every difference of inflow and outflow", f.loc(d2))
-    elif not guards and len(decs) == 1 and not closes:
-        d = decs[0]
-        if isinstance(d.test.ops[0], ast.NotEq) and returns_false(d):
-            rep.violation(RID, key + ":decision", f"`{norm(d.test)}` compares two accumulated sums of flow values exactly: float flows that conserve flow as decimal numbers "
+            other_cmp = [c_ for b_ in gnode.orelse for c_ in ast.walk(b_) if isinstance(c_, ast.Compare)]
+            if other_cmp:
+                rep.violation(RID, key + ":decision", f"`{norm(other_cmp[0])}` does not answer False on every difference of inflow and outflow", f.loc(other_cmp[0]))
+            else:
+                raise AnalysisError("check_flow_conservation: the non-integral branch of the comparison was not recognised")
+    elif not guarded and len(plain) == 1 and not unguarded:
+        d = plain[0]
+        dh = holder_if(d)
+        if isinstance(d.ops[0], ast.NotEq) and dh is not None and returns_false(dh):
+            rep.violation(RID, key + ":decision", f"`{norm(d)}` compares two accumulated sums of flow values exactly: float flows that conserve flow as decimal numbers "
                           "(0.3 -> 0.1 + 0.2 = 0.30000000000000004) are rejected as non-conserving although they are inside the documented domain", f.loc(d))
         else:
-            rep.violation(RID, key + ":decision", f"`if {norm(d.test)}: {norm(d.body[0])[:40]}` does not answer False on every difference of inflow and outflow", f.loc(d))
-    elif not guards and len(closes) == 1 and not decs:
-        cl = closes[0]
-        rep.violation(RID, key + ":decision", f"`{norm(cl.test)}` is the only comparison of the two sums: a relative tolerance accepts integer flows that differ by one part in 1e9 "
-                      "(2000000001 vs 1500000000 + 500000000) as conserving, and the greedy decomposition then drops the leftover unit"
-                      + ("" if tol_ok(cl) and returns_false(cl) else "; the tolerance is above 1e-6 or the verdict is not False"), f.loc(cl))
+            rep.violation(RID, key + ":decision", f"`{norm(d)}` does not answer False on every difference of inflow and outflow", f.loc(d))
+    elif not guarded and not plain and len(unguarded) == 1:
+        cl = unguarded[0][1]
+        rep.violation(RID, key + ":decision", f"`{norm(cl)[:80]}` is the only comparison of the two sums: a relative tolerance accepts integer flows that differ by one part in 1e9 "
+                      "(2000000001 vs 1500000000 + 500000000) as conserving, and the greedy decomposition then drops the leftover unit", f.loc(cl))
     else:
-        raise AnalysisError("check_flow_conservation: comparison of the two sums not recognised (exact for integral sums, tolerance <= 1e-6 otherwise - review)")
+        raise AnalysisError("check_flow_conservation: comparison of the two sums not recognised (exact for integral sums, rounding-error tolerance otherwise - review)")
     # 4. True only after the whole loop
     trues = [r for r in ast.walk(f.node) if isinstance(r, ast.Return) and isinstance(r.value, ast.Constant) and r.value.value is True]
     last = f.node.body[-1]
